@@ -483,7 +483,10 @@ class Context:
         def error_constructor(*args):
             message = args[0] if args else UNDEFINED
             err = JSObject(error_prototype)  # Set prototype
-            err.set("message", to_string(message) if message is not UNDEFINED else "")
+            err.set(
+                "message",
+                self._string_arg(message) if message is not UNDEFINED else "",
+            )
             err.set("name", error_name)
             err.set("stack", "")  # Stack trace placeholder
             # Set when the error is thrown; until then undefined (never the
@@ -503,6 +506,7 @@ class Context:
     def _create_math_object(self) -> JSObject:
         """Create the Math global object."""
         math_obj = JSObject()
+        to_number = self._number_arg  # arguments may be objects
 
         # Constants
         math_obj.set("PI", math.pi)
@@ -775,7 +779,7 @@ class Context:
             """Convert argument to a number."""
             if not args:
                 return 0
-            return to_number(args[0])
+            return self._number_arg(args[0])
 
         num_constructor = JSCallableObject(number_call)
 
@@ -959,6 +963,18 @@ class Context:
 
         return fn_constructor
 
+    def _number_arg(self, value: JSValue):
+        """ToNumber of a built-in's argument (objects go through ToPrimitive)."""
+        if isinstance(value, JSObject) and self._current_vm is not None:
+            value = self._current_vm._to_primitive(value, "number")
+        return to_number(value)
+
+    def _string_arg(self, value: JSValue) -> str:
+        """ToString of a built-in's argument (objects go through ToPrimitive)."""
+        if isinstance(value, JSObject) and self._current_vm is not None:
+            value = self._current_vm._to_primitive(value, "string")
+        return to_string(value)
+
     def _to_index(self, value: JSValue) -> int:
         """ToIndex: undefined is 0; a negative or non-finite integer is a RangeError."""
         from .errors import JSRangeError
@@ -1116,23 +1132,23 @@ class Context:
 
     def _global_isnan(self, *args) -> bool:
         """Global isNaN - converts argument to number first."""
-        x = to_number(args[0]) if args else float("nan")
+        x = self._number_arg(args[0]) if args else float("nan")
         return math.isnan(x)
 
     def _global_isfinite(self, *args) -> bool:
         """Global isFinite - converts argument to number first."""
-        x = to_number(args[0]) if args else float("nan")
+        x = self._number_arg(args[0]) if args else float("nan")
         return not (math.isnan(x) or math.isinf(x))
 
     def _global_parseint(self, *args):
         """Global parseInt, also Number.parseInt."""
         from .values import _JS_WHITESPACE
 
-        s = to_string(args[0] if args else UNDEFINED).lstrip(_JS_WHITESPACE)
+        s = self._string_arg(args[0] if args else UNDEFINED).lstrip(_JS_WHITESPACE)
         sign = -1 if s.startswith("-") else 1
         if s[:1] in ("+", "-"):
             s = s[1:]
-        radix = to_number(args[1]) if len(args) > 1 else 0
+        radix = self._number_arg(args[1]) if len(args) > 1 else 0
         # ToInt32; negative values are out of range either way
         radix = int(radix) & 0xFFFFFFFF if math.isfinite(radix) else 0
         if radix in (0, 16) and s[:2] in ("0x", "0X"):
@@ -1164,7 +1180,7 @@ class Context:
         import re
         from .values import _JS_WHITESPACE
 
-        s = to_string(args[0] if args else UNDEFINED).lstrip(_JS_WHITESPACE)
+        s = self._string_arg(args[0] if args else UNDEFINED).lstrip(_JS_WHITESPACE)
         m = re.match(
             r"[+-]?(?:Infinity|(?:[0-9]+\.?[0-9]*|\.[0-9]+)(?:[eE][+-]?[0-9]+)?)", s
         )
